@@ -85,6 +85,17 @@ class Ctx:
     def failure(self, sig, replay):
         """Register a failing case with signature `sig` (a short string). Known findings are matched by
         signature; everything else becomes a VIOLATION (one per signature, smallest replay kept)."""
+        if " class=" in sig:
+            # table cells: attributed to listed findings iff every class the cell belongs to is the class of an open finding
+            cls = set(sig.split(" class=")[1].split(" ")[0].split("+"))
+            open_f = [f for f in self.findings if f.get("status") == "open" and f.get("cell_classes")]
+            union = set().union(*[set(f["cell_classes"]) for f in open_f]) if open_f else set()
+            if cls != {"none"} and cls <= union:
+                for f in open_f:
+                    if cls & set(f["cell_classes"]):
+                        self.known_hit.setdefault(f["id"], f)
+                        self.count("known_finding:" + f["id"])
+                        return
         for f in self.findings:
             if f.get("status") == "open" and sig_matches(f, sig, replay):
                 self.known_hit.setdefault(f["id"], f)
